@@ -343,9 +343,18 @@ func (w *WAL) mutateStateLocked(tx stateTxn) error {
 // data within it will be performed to free old files that may have been
 // truncated concurrently.
 func (w *WAL) acquireState() (*state, func()) {
-	s := w.loadState()
-	verifPoint("acquireState.loaded")
-	return s, s.acquire()
+	for {
+		s := w.loadState()
+		verifPoint("acquireState.loaded")
+		release := s.acquire()
+		if w.loadState() == s {
+			return s, release
+		}
+		// The state was replaced between us loading it and taking a reference, so
+		// its finalizer may already have run and closed or deleted its files. Drop
+		// it and retry with the current state.
+		release()
+	}
 }
 
 // acquireOpenState is like acquireState but returns ErrClosed if Close has
